@@ -1,5 +1,6 @@
 import Driver.Util
 import Capnp.Gen.Core
+import Capnp.Gen.Strquote
 /-! ops of domain `gen`: translator validation — evaluate a generated definition -/
 namespace Driver.Gen
 open Capnp.Prelude
@@ -11,7 +12,7 @@ def run : List String → String
     match parseInts args with
     | none => "bad-op"
     | some a =>
-      match Capnp.Gen.dispatchCore name a with
+      match (Capnp.Gen.dispatchCore name a).orElse (fun _ => Capnp.Gen.Strquote.dispatchStrquote name a) with
       | none => "unknown"
       | some (.error (.panic _)) => "panic"
       | some (.error (.err _)) => "err"
